@@ -126,13 +126,31 @@ def r_numbuf(ctx, prog, rule="R-NUMBUF"):
         K = None
         for cond, pol in fn.guards_of(fill[0][0]):
             c = fn.s(fn.strip(cond, casts=True))
-            if c["k"] == "BinaryOperator" and c["op"] in ("<", "<=") and pol:
-                a = fn.s(fn.strip(c["c"][0], casts=True))
-                if a["k"] == "DeclRefExpr" and a["ref"]["d"] == nd:
-                    kv = fn.const(c["c"][1])
-                    if kv is not None:
-                        kk = kv if c["op"] == "<" else kv + 1
-                        K = kk if K is None else min(K, kk)
+            if c["k"] != "BinaryOperator" or c["op"] not in ("<", "<=", ">", ">="):
+                continue
+            a = fn.s(fn.strip(c["c"][0], casts=True))
+            b = fn.s(fn.strip(c["c"][1], casts=True))
+            op = c["op"]
+            if b["k"] == "DeclRefExpr" and b["ref"]["d"] == nd:
+                a, b = b, a
+                kv = fn.const(c["c"][0])
+                op = {"<": ">", "<=": ">=", ">": "<", ">=": "<="}[op]
+            elif a["k"] == "DeclRefExpr" and a["ref"]["d"] == nd:
+                kv = fn.const(c["c"][1])
+            else:
+                continue
+            if kv is None:
+                continue
+            if not pol:
+                op = {"<": ">=", "<=": ">", ">": "<=", ">=": "<"}[op]
+            # n op kv holds here: an exclusive upper bound on n
+            if op == "<":
+                kk = kv
+            elif op == "<=":
+                kk = kv + 1
+            else:
+                continue
+            K = kk if K is None else min(K, kk)
         if K is None:
             ctx.ob(rule, "stores into buffer_[%d] stay inside" % ext, False, fn.loc(fill[0][0]),
                    "the fill store buffer_[n++] is not dominated by a test n < constant: an over-long numeric literal overflows the parser object")
